@@ -15,7 +15,7 @@ func init() {
 	register(&propertyDef{
 		id:    "C07",
 		title: "run-time failures surface as errors, never as a crash",
-		rules: []ruleFunc{c07R1, c07R2, c07R3, c07R4, c07R5, c07R6, c07R7},
+		rules: []ruleFunc{c07R1, c07R2, c07R3, c07R4, c07R5, c07R6, c07R7, c07R8, c07R9},
 		decided: "no explicit panic is reachable in the run path except tabled internal invariants, some of which are discharged by checking their static reason (R1); " +
 			"every unchecked type assertion in the run path is justified by a dominating validation or by construction (R2); the error of expression resolution in the notify loop is routed to the error report, cancel and return (R3); " +
 			"(thorough) integer division/remainder in the expression evaluator is guarded by a zero test (R4); values tested for absence are not dereferenced on the failing branch (R5). Shared: variables shared with goroutines are written under a lock — concurrent map writes abort the process (R6 = C17.R2).",
@@ -1261,4 +1261,15 @@ func c07R7(c *Ctx) {
 		})
 	}
 	c.minCount(rule, "map updates in the run path", n, 20)
+}
+
+// table: function|position of origin -> reason
+var c07IndexTable = map[string]string{}
+
+// C07.R9 constant positions in run-time values.
+func c07R9(c *Ctx) {
+	const rule = "C07.R9"
+	c.explain("C07.R9 every constant position taken in a slice or in a reflected list ((reflect.Value).Index(k)) on the run path is dominated by a length test of that value which implies the position exists: an empty list of loop items, an empty result list or an empty argument list is legal input, and indexing it panics in a goroutine that nothing recovers")
+	n := c.constIndexRule(rule, c.runFns(), c07IndexTable, "an empty or shorter run-time value (an empty `items` list is legal) panics with index out of range in a run goroutine")
+	c.ok(rule, "count", "-", fmt.Sprintf("%d constant positions on the run path", n), false)
 }
